@@ -8,6 +8,18 @@ CLAIMED = {
    text="Machine-checked proof (Coq 8.16.1) over an executable Gallina model of Tokenizer.tokenize: losslessness up to the three normalisations, the declarative stream specification (maximal constant runs, one Variable per letter unless the whole run is a function name, operator/alias table), exactly one trailing EOF, padding mode removes only Pad tokens, totality, ValueError iff an unsupported character occurs - for ALL code-point strings, both padding modes. The character classes and the operator table in the theorems are regenerated from /repo on every run by evaluating the classifiers on every code point; the control structure is hand-modelled and tied to the code by a differential check (extracted model vs implementation) plus a direct oracle of the statement.",
    note="Trusted: Coq kernel; gen_params.py; extraction (ExtrOcamlBasic only) + OCaml driver; the differential harness; the hand-written model's correspondence is tested, not proved. All six theorems closed under the global context.",
    design="4 C11", technique="Coq proof over executable model + generated tables + differential correspondence"),
+ "C03": dict(
+   text="Machine-checked proof over an executable Gallina model of ExpressionParser (ten mutually recursive productions on fuel, every raise explicit): parse succeeds EXACTLY on the token lists the grammar relation `Derives` derives and returns the derived tree (soundness + completeness, hence uniqueness), and the leaves of the tree are exactly the Constant/Variable tokens in order (no operand dropped, duplicated or reordered) - for all strings. The grammar's FIRST/precedence sets are the bit masks regenerated from /repo on every run. The grammar relation nests * and / chains to the right like the implementation; that deviation from the documented left-to-right order is the known finding P2 (theorem C03_known_P2; known_findings.json) and the check's independent reference parser of the documented grammar reports every other deviation.",
+   note="Trusted: Coq kernel; Grammar.v as the reading of the docstring grammar; gen_params.py; extraction + driver; differential harness incl. the independent reference parser (harness/refparser.py). Model-code tie tested, not proved. All theorems closed under the global context.",
+   design="4 C03", technique="Coq proof (soundness+completeness of parser model vs grammar relation) + differential correspondence + reference-parser oracle"),
+ "C10": dict(
+   text="Machine-checked proof over the parser model: for every string the fuel 10*|tokens|+20 suffices (total, never OutOfFuel); every failure is one of the five documented parse exceptions or ValueError - the model's IndexError (exhausted token queue) and KeyError are unreachable because every cursor state ends in exactly one EOF (invariant proved for all ten productions); and for every call history on one parser object (failed parses, tokenize, clear_cache, client edits of handed lists) the next parse equals the pure function, i.e. a fresh parser (no sticky state). The RecursionError clause is runtime: the check probes flat chains of 3000 operands and nesting; flat * and / chains overflow the CPython stack (known finding P3, consequence of P2).",
+   note="Trusted as C03, plus theories/ParserObj.v as the model of the parser object's memo tables and cursor fields. The CPython recursion limit is outside the model.",
+   design="4 C10", technique="Coq proof (fuel bound, error-closure invariant, history-independence invariant) + differential correspondence + exception-type oracle"),
+ "C12": dict(
+   text="Machine-checked proof over a state-machine model of the ExpressionParser object in which token lists are heap objects (so aliasing between the cache and lists handed to clients is visible): an invariant (every cached list object holds exactly the tokens of its text and is never handed out; every cached tree is the parse of its text) holds initially and is preserved by every operation; hence after ANY sequence of parse/tokenize/clear_cache calls and client pops/overwrites/clears of handed lists, parse(s) and tokenize(s) return what a fresh parser returns, and every list handed out is a new object.",
+   note="Trusted: Coq kernel; theories/ParserObj.v as model of parser.py:123-172 (tied by the `history` correspondence suite); clients mutating Token OBJECTS or cached TREES are outside the model (the property speaks of lists).",
+   design="4 C12", technique="Coq proof (invariant by induction over operation sequences) + differential correspondence on call histories"),
 }
 WIP = "model and theorems not built yet in this round (work in progress; planned, see DESIGN.md section 4)"
 def main():
